@@ -325,7 +325,7 @@ fn check_crate<T: Jetty<F = f64> + Copy>(tname: &str, ctx: &Ctx, shard: usize, n
     let b = Basis::new(&shape);
     let u = unit_roundoff::<T>();
     let maxdeg = b.max_deg;
-    for ci in 0..ctx.n(1500, 60000) {
+    for ci in 0..ctx.n(1500, 600000) {
         if ci % nshards as u64 != shard as u64 {
             continue;
         }
@@ -492,7 +492,7 @@ fn check_crate<T: Jetty<F = f64> + Copy>(tname: &str, ctx: &Ctx, shard: usize, n
 fn check_nalgebra<T: Jetty<F = f64> + RealField>(tname: &str, ctx: &Ctx, shard: usize, nshards: usize, tindex: u64) -> Acc {
     let mut acc = Acc::new();
     let u = unit_roundoff::<T>();
-    for ci in 0..ctx.n(800, 30000) {
+    for ci in 0..ctx.n(800, 300000) {
         if ci % nshards as u64 != shard as u64 {
             continue;
         }
